@@ -99,6 +99,9 @@ func checkPure(c pureCase) string {
 			return fmt.Sprintf("parse of %q panicked: %v", texts[i], p.Panic)
 		}
 		if !p.OK() {
+			if ref.Parse([]byte(texts[i])) != nil {
+				return fmt.Sprintf("pool text %q is derivable from the grammar but was rejected at this point of the history: %v", texts[i], p.Err)
+			}
 			return fmt.Sprintf("HARNESS: pool text %q does not parse: %v", texts[i], p.Err)
 		}
 		d := obs.DumpFull(p.Src.Expression) + fmt.Sprintf("|nodes=%d idents=%d eof=[%d,%d)", p.Src.NodeCount, p.Src.IdentifierCount, p.Src.EndOfFileToken.Pos(), p.Src.EndOfFileToken.End())
@@ -257,6 +260,18 @@ func noClock(n *ref.Node) {
 	})
 }
 
+// Texts outside ASCII: identifiers with letters, combining marks, digits and connectors of other scripts, the
+// non-ASCII white space and line breaks, a byte order mark; accepted ones and rejected ones. How a character is
+// classified must not depend on which characters were scanned before.
+var c08ExoticValid = []string{
+	"x\uff11 + 1", "total\u203fnet * 2", "\ufeffa + b", "a +\u202fb", "\u0e01\u0e34\u0e19 + 1", "\u00e9 + \u4e2d\u6587", "\u03b1\u0301 * \u03b2", "a\u00a0+\u3000b", "n\u0303 ?? \u00f1",
+	"'\uff07' + 'x\u00a0y'", "a\u2028+ b", "\u0440\u0443\u0431 . \u043a\u043e\u043f", "x\u0661 - y\u0966 ?? 0", "\u2160 + \u2167", "_\u200c + $\u200d",
+}
+
+var c08ExoticInvalid = []string{
+	"\u0e34 + 1", "\uff11x", "1\uff45 3", "a \u2215 b", "\u203fa", "x\ufeff\ufeff y", "\u00b7", "a\u2028.\u2029b c", "\u0661 + 1", "'\u2028", "a \uff0b b", "f\uff08x\uff09",
+}
+
 func genPureText(rt *rapid.T, depth int) (string, *ref.Node) {
 	ast := genExpr(rt, &c08Cfg, depth, ref.LvComma)
 	boundPads(rt, ast)
@@ -290,7 +305,7 @@ func pureNontrivial(texts []string, actions []pureAction) bool {
 
 // TestC08History: evaluations repeated and interleaved with unrelated work.
 func TestC08History(t *testing.T) {
-	run := h.Begin("C08", "history", "rapid: a pool of 1-4 generated programs (the C03 grammar without now/toDay, over the world of all data kinds) and 1-3 unrelated programs; a history of 4-24 actions {parse text i again, evaluate tree i with data variant j (full world / small map / no map) in a fresh runner with freshly built equal data, analyse tree i, parse-and-format a malformed text, evaluate and analyse an unrelated formula}; oracle: re-parsing gives an identical full dump (shape, values, Pos/End, ids, parent links, counters), every evaluation of (tree i, data j) equals the first one and equals the evaluation of a freshly parsed tree of the same text (value by deep address-free comparison, error by message), field analysis returns the same set, and the full dump of every tree is unchanged after every evaluation / analysis and at the end; non-trivial: a program with a call or assignment evaluated at least twice with other actions in between; distinct by case")
+	run := h.Begin("C08", "history", "rapid: a pool of 1-4 generated programs (the C03 grammar without now/toDay, over the world of all data kinds) and 1-3 unrelated programs (pool and unrelated texts are, one time in four / three, texts outside ASCII: identifiers of other scripts with combining marks, digits and connectors, non-ASCII white space and line breaks, a byte order mark - accepted and rejected ones); a history of 4-24 actions {parse text i again, evaluate tree i with data variant j (full world / small map / no map) in a fresh runner with freshly built equal data, analyse tree i, parse-and-format a malformed text, evaluate and analyse an unrelated formula}; oracle: re-parsing gives an identical full dump (shape, values, Pos/End, ids, parent links, counters), every evaluation of (tree i, data j) equals the first one and equals the evaluation of a freshly parsed tree of the same text (value by deep address-free comparison, error by message), field analysis returns the same set, and the full dump of every tree is unchanged after every evaluation / analysis and at the end; non-trivial: a program with a call or assignment evaluated at least twice with other actions in between; distinct by case")
 	defer run.End(t)
 	h.RapidSetup(h.N(2500, 600000), "c08hist")
 	rapid.Check(t, func(rt *rapid.T) {
@@ -299,11 +314,17 @@ func TestC08History(t *testing.T) {
 		nt := rapid.IntRange(1, 4).Draw(rt, "ntexts")
 		for i := 0; i < nt; i++ {
 			txt, _ := genPureText(rt, rapid.IntRange(1, 5).Draw(rt, "depth"))
+			if rapid.IntRange(0, 3).Draw(rt, "exotic") == 0 {
+				txt = rapid.SampledFrom(c08ExoticValid).Draw(rt, "exotictext")
+			}
 			plain = append(plain, txt)
 			c.Texts = append(c.Texts, mkTextCase(txt, "").Text)
 		}
 		for i := rapid.IntRange(1, 3).Draw(rt, "nunrel"); i > 0; i-- {
 			txt, _ := genPureText(rt, rapid.IntRange(1, 4).Draw(rt, "udepth"))
+			if rapid.IntRange(0, 2).Draw(rt, "uexotic") == 0 {
+				txt = rapid.SampledFrom(append(append([]string{}, c08ExoticValid...), c08ExoticInvalid...)).Draw(rt, "uexotictext")
+			}
 			c.Unrelated = append(c.Unrelated, mkTextCase(txt, "").Text)
 		}
 		na := rapid.IntRange(4, 24).Draw(rt, "nactions")
